@@ -5,9 +5,10 @@ From Gatery Require Import WfDefs WfLemmas.
 Import ListNotations.
 
 (* the part of the store that only creation / destruction change *)
+Definition nskel (g : graph) := map (fun kv => (fst kv, n_role (snd kv))) (g_nodes g).
 Definition skeleton (g : graph) :=
   (keys (g_nodes g), map (fun kv => (fst kv, gr_parent (snd kv))) (g_groups g), keys (g_clocks g),
-   (g_next g, g_gnext g, g_cnext g)).
+   (g_next g, g_gnext g, g_cnext g), nskel g, g_drv g).
 
 Definition req_of (g : graph) (n : N) : option (list constr) := option_map n_req (getn g n).
 
@@ -32,8 +33,11 @@ Proof.
   destruct (N.eqb k k0); simpl; [rewrite H; auto | f_equal; auto].
 Qed.
 
-Lemma skeleton_upd_node : forall g n f, skeleton (upd_node g n f) = skeleton g.
-Proof. intros. unfold skeleton, upd_node. simpl. rewrite keys_upd. reflexivity. Qed.
+Lemma skeleton_upd_node : forall g n f, (forall nd, n_role (f nd) = n_role nd) -> skeleton (upd_node g n f) = skeleton g.
+Proof.
+  intros. unfold skeleton, nskel, upd_node. simpl. rewrite keys_upd.
+  rewrite (map_upd_proj n_role) by auto. reflexivity.
+Qed.
 
 Lemma skeleton_set_members : forall g gid l, skeleton (set_members g gid l) = skeleton g.
 Proof.
@@ -45,15 +49,15 @@ Lemma skeleton_set_clocked : forall g c l, skeleton (set_clocked g c l) = skelet
 Proof. intros. unfold skeleton, set_clocked. simpl. rewrite keys_upd. reflexivity. Qed.
 
 Lemma skeleton_set_in : forall g a v, skeleton (set_in g a v) = skeleton g.
-Proof. intros; apply skeleton_upd_node. Qed.
+Proof. intros; apply skeleton_upd_node; reflexivity. Qed.
 Lemma skeleton_set_cons : forall g b l, skeleton (set_cons g b l) = skeleton g.
-Proof. intros; apply skeleton_upd_node. Qed.
+Proof. intros; apply skeleton_upd_node; reflexivity. Qed.
 Lemma skeleton_set_otype : forall g b t, skeleton (set_otype g b t) = skeleton g.
-Proof. intros; apply skeleton_upd_node. Qed.
+Proof. intros; apply skeleton_upd_node; reflexivity. Qed.
 Lemma skeleton_set_grp : forall g n v, skeleton (set_grp g n v) = skeleton g.
-Proof. intros; apply skeleton_upd_node. Qed.
+Proof. intros; apply skeleton_upd_node; reflexivity. Qed.
 Lemma skeleton_set_clk : forall g a v, skeleton (set_clk g a v) = skeleton g.
-Proof. intros; apply skeleton_upd_node. Qed.
+Proof. intros; apply skeleton_upd_node; reflexivity. Qed.
 
 (* ---- what depends only on the skeleton ---- *)
 Lemma liveb_keys : forall g n, liveb g n = memb N.eq_dec n (keys (g_nodes g)).
@@ -96,6 +100,9 @@ Section Skel.
   Lemma skel_gnext : g_gnext g' = g_gnext g. Proof. unfold skeleton in S. congruence. Qed.
   Lemma skel_cnext : g_cnext g' = g_cnext g. Proof. unfold skeleton in S. congruence. Qed.
 
+  Lemma skel_nskel : nskel g' = nskel g. Proof. unfold skeleton in S. congruence. Qed.
+  Lemma skel_drv : g_drv g' = g_drv g. Proof. unfold skeleton in S. congruence. Qed.
+
   Lemma liveb_skel : forall n, liveb g' n = liveb g n.
   Proof. intros. rewrite !liveb_keys, skel_nodes. reflexivity. Qed.
   Lemma groupb_skel : forall n, groupb g' n = groupb g n.
@@ -121,6 +128,19 @@ Section Skel.
     apply (H gid gr0 p); auto. congruence.
   Qed.
 End Skel.
+
+Lemma get_nskel : forall (m : amap node) k,
+  get k (map (fun kv => (fst kv, n_role (snd kv))) m) = option_map n_role (get k m).
+Proof.
+  induction m as [|[k0 v0] r IH]; intros; simpl; auto.
+  destruct (N.eqb k k0); auto.
+Qed.
+
+Lemma role_of_nskel : forall g n, role_of g n = match get n (nskel g) with Some r => r | None => 0%N end.
+Proof. intros. unfold role_of, nskel, getn. rewrite get_nskel. destruct (get n (g_nodes g)); auto. Qed.
+
+Lemma role_of_skel : forall g g' n, skeleton g' = skeleton g -> role_of g' n = role_of g n.
+Proof. intros. rewrite !role_of_nskel, (skel_nskel g g' H). reflexivity. Qed.
 
 (* ---- validity facts ---- *)
 Lemma drv_Some_valid : forall g a b, drv g a = Some b -> in_validb g a = true.
